@@ -19,6 +19,17 @@ CLAIMED = {
             "Coq proof (lia over Z) + model/implementation correspondence by vm_compute"),
 }
 
+CLAIMED["C14"] = (
+    "6/C14",
+    "Coq theorems for every filter and every recorded value (match_value = Ans (match_spec), hence never raises; lifted "
+    "to the per-key conjunction; legacy TypeError witnesses refuted) over a hand-written model of _match_metadata_value / "
+    "_operator_filter / match_against_recorded_metadata, for every fnmatch oracle; model tied to /repo on every run by "
+    "an exhaustive small universe (~9k filter x value pairs) + random deeper pairs evaluated by the real matcher and by "
+    "the model; direct predicate (never raises, equals the documented meaning, deterministic) on the implementation.",
+    "Trusted: Coq kernel + vm_compute; hand-written model of Python ==/</<= on the metadata value domain (exact "
+    "rationals for floats); fnmatch is an oracle (section variable); correspondence harness.",
+    "Coq proof (structural induction over filters) + exhaustive small-universe correspondence by vm_compute")
+
 NOT_YET = {}
 
 
